@@ -452,7 +452,13 @@ def _run_from_model(case, ctx):
     p = _grid_for(name, P, r, n=r.randint(8, 30))
     meta = {"user": "verif", "batch": 7}
     model = GM.make_model(name, P, pressure_range=(float(p.min()), float(p.max())), loading_range=(0.0, 1.0), temperature=T)
-    miso = pygaps.ModelIsotherm(model=model, material="verif-c12", adsorbate=ads, temperature=Tst, **units, **meta)
+    mbranch = "des" if case["seed"] % 3 == 0 else "ads"  # (a model fitted to the desorption branch describes that branch)
+    miso = pygaps.ModelIsotherm(model=model, branch=mbranch, material="verif-c12", adsorbate=ads, temperature=Tst, **units, **meta)
+    # another isotherm of the same model class at another temperature, created afterwards: instances share nothing
+    try:
+        GM.make_model(name, _fit_params(name, gen.rng(case["seed"], "other")), temperature=T + 41.5)
+    except Exception:
+        pass
     for how, kw in (("default-grid", {}), ("pressure-points", {"pressure_points": list(p)})):
         res = _call(pygaps.PointIsotherm.from_modelisotherm, miso, **kw)
         ctx.case(["from_model", name, how, case["seed"]])
@@ -461,8 +467,21 @@ def _run_from_model(case, ctx):
             continue
         piso = res[1]
         ctx.count("from_model", how)
-        pp, ll = piso.pressure(branch="ads"), piso.loading(branch="ads")
+        ctx.count("from_model", "model-branch-" + mbranch)
+        if not piso.has_branch(mbranch) or piso.has_branch("des" if mbranch == "ads" else "ads"):
+            ctx.violation("from_modelisotherm/branch", "the generated points are not on the branch the model describes", model_branch=mbranch, marks=sorted(set(piso.data_raw["branch"].tolist())), how=how)
+            continue
+        pp, ll = piso.pressure(branch=mbranch), piso.loading(branch=mbranch)
         exp = numpy.asarray(model.loading(pp), dtype=float)
+        # ... and on the published equation of that model at this isotherm's temperature (the model object is not its own judge)
+        try:
+            ref = numpy.array([float(GM.reference_loading(name, P, float(x), T)) for x in numpy.asarray(pp, dtype=float)])
+        except Exception:
+            ref = None
+        if ref is not None and ref.shape == exp.shape:
+            ctx.count("from_model", "published-equation-compared")
+            if not numpy.allclose(ll, ref, rtol=1e-9, atol=1e-300):
+                ctx.violation("from_modelisotherm/points-off-published-equation", "generated points do not lie on the model equation at the isotherm's temperature", model=name, got=ll[:4], expected=ref[:4], T=T)
         if not numpy.allclose(ll, exp, rtol=1e-12, atol=0):
             ctx.violation("from_modelisotherm/points-off-model", "generated points do not lie on the model", model=name, got=ll[:4], expected=exp[:4])
         if how == "pressure-points" and not numpy.allclose(pp, p, rtol=0, atol=0):
@@ -477,7 +496,7 @@ def _run_from_model(case, ctx):
         # re-fitting returns the same curve
         if how == "pressure-points":
             del _LOG[:]
-            rf = _call(pygaps.ModelIsotherm.from_pointisotherm, piso, model=name)
+            rf = _call(pygaps.ModelIsotherm.from_pointisotherm, piso, model=name, branch=mbranch)
             ctx.case(["refit", name, case["seed"]])
             if rf[0] != "ok":
                 if _is_calc(rf[1]):
